@@ -68,7 +68,8 @@ fn lattice(p: &Proj, lat_step: f64, lon_step: f64) -> Vec<[f64; 2]> {
     let mut v = Vec::new();
     for &lat in &lat_lattice(lat_step, 89.9) {
         for &dl in &dlon_lattice(lon_step, 180.) {
-            let lon = p.lon_c + dl;
+            // longitudes as a user gives them: within (-180, 180], also when the domain straddles the antimeridian
+            let lon = crate::geo::wrap180(p.lon_c + dl);
             if pp.contains(lat, lon, 180.) {
                 v.push([lon.to_radians(), lat.to_radians()]);
             }
